@@ -1471,6 +1471,7 @@ func (fr *frame) assertsAtCall(st *State, x *ssa.Call) {
 		}
 		if env == nil {
 			env = fr.specEnv(fr.bc, st)
+			env.ctx = x.Block()
 		}
 		g := env.evalBool(as.Expr)
 		if as.Clause.Kind == "assume" {
